@@ -206,6 +206,12 @@ pub fn gen_case(prop: &str, seed: u64, tier: &str, run: u64) -> Case {
             }
         }
         "C17" => return gen_c17(&mut rng, run),
+        "C18" if run > 5 && rng.chance(1, 5) => {
+            // placement must not trust what already sits at the path: images with a stale file at the
+            // hash path of a known content, which is then committed (orphans.rs, C08's machinery)
+            p = crash_profile(thorough);
+            mode = Mode::Orphans { pseed: rng.next() };
+        }
         "C18" => return gen_c18(&mut rng, run),
         "C19" if rng.chance(1, if thorough { 150 } else { 330 }) => {
             // first-time initialisation with the pre-created directory tree, killed inside it: the
